@@ -634,5 +634,42 @@ func (R *Run) ruleIDUnique() {
 	if nAdd == 0 {
 		R.bad("id-unique", "ClientManager.Add implementations", "-", "no non-mock Add(cc *ClientConn) method found")
 	}
+	// the ID counter only moves forward: an ID that was handed out is not handed out again while private chats,
+	// pending transfers and other users' lists may still refer to the connection that held it
+	nCtr := 0
+	for _, fn := range P.Funcs {
+		if isClientLibrary(fn) {
+			continue
+		}
+		for _, ci := range callsIn(fn) {
+			c := ci.Common()
+			m := c.StaticCallee()
+			if m == nil || m.Signature.Recv() == nil || len(c.Args) == 0 || !strings.HasPrefix(calleeName(c), "(*sync/atomic.") {
+				continue
+			}
+			fa, ok := c.Args[0].(*ssa.FieldAddr)
+			if !ok {
+				continue
+			}
+			if f, _ := fieldOf(fa); f != "hotline.MemClientMgr.nextClientID" {
+				continue
+			}
+			nCtr++
+			good := false
+			switch m.Name() {
+			case "Load":
+				good = true
+			case "Add":
+				if k, isK := constInt(c.Args[1]); isK && k == 1 {
+					good = true
+				}
+			}
+			R.check(good, "id-unique", fmt.Sprintf("%s: nextClientID.%s #%d", fname(fn), m.Name(), nCreateIn(fn, ci)), P.ipos(ci), "the counter is read or advanced by one",
+				"the client ID counter is "+m.Name()+"-ed with something else than +1: IDs that were handed out are issued again, and whatever still refers to the old holder (private chat membership, transactions in flight) reaches the newcomer")
+		}
+	}
+	if nCtr == 0 {
+		R.und("id-unique", "MemClientMgr.nextClientID", "-", "no use of the ID counter found (mechanism moved)")
+	}
 
 }
